@@ -1,12 +1,23 @@
+mod adv;
+mod c05;
+mod c15;
+mod cfg;
+mod model;
+
 fn main() {
     let args = vf_core::parse_args();
-    let mut run = vf_core::Run::new(&args, "exploration");
+    let level = match args.property.as_str() {
+        "C05" => "fault_enumeration",
+        _ => "exploration",
+    };
+    let mut run = vf_core::Run::new(&args, level);
     match args.property.as_str() {
+        "C15" => c15::run(&mut run),
+        "C05" => c05::run(&mut run),
         other => {
-            eprintln!("vf-fri does not serve {other} yet (planned: C05 C15)");
+            eprintln!("vf-fri does not serve {other}");
             std::process::exit(2);
         },
     }
-    #[allow(unreachable_code)]
     run.finish_and_exit();
 }
